@@ -178,7 +178,11 @@ func genTree(depth int, leafNo *int, ctx int) (Expression, string) {
 		}
 		return fixedLeaf(*leafNo)
 	}
-	switch vChoose(5) {
+	c := vChoose(5)
+	if noQuantC16 && c == 3 {
+		c = 4
+	}
+	switch c {
 	case 0:
 		e, s := genTree(depth-1, leafNo, ctxNot)
 		return &UnaryExpression{Operator: UnaryOpNot, Operand: e}, "not" + reqSpace() + wrap(s, needParens(e, ctxNot))
@@ -237,13 +241,22 @@ func foldNots(e Expression) Expression {
 	return e
 }
 
+// noQuantC16: depth-3 trees are built from not/and/or only and rendered with
+// the default layout (the product with quantifiers and layout variation is
+// out of reach: ~10^6 parses).
+var noQuantC16 bool
+
 func H_C16_roundtrip() {
 	depth := 1 + vChoose(2)
-	if vTier() > 0 {
-		depth = 1 + vChoose(3)
-	}
 	n := 0
-	layoutReset(14, 4)
+	noQuantC16 = false
+	if vTier() > 0 && vBool() {
+		depth = 3
+		noQuantC16 = true
+		layoutReset(0, 0)
+	} else {
+		layoutReset(14, 4)
+	}
 	t, s := genTree(depth, &n, ctxTop)
 	text := optSpace() + wrap(s, needParens(t, ctxTop) && false) + optSpace()
 	got, err := Parse("", []byte(text))
